@@ -15,9 +15,9 @@ META = {
     'level': 'proof',
     'technique': 'Coq proof (induction over word lists / scanner invariants) on a hand-written Gallina model + differential correspondence with the implementation',
     'design_ref': 'DESIGN.md section 4 C08',
-    'theorems': ['C08_casing_roundtrip', 'C08_casing_resolves', 'C08_snake_fixed', 'C08_letter_case_table', 'C08_auto_keys_cover',
+    'theorems': ['C08_casing_roundtrip', 'C08_casing_resolves', 'C08_snake_fixed', 'C08_letter_case_table', 'C08_auto_keys_cover', 'C08_auto_keys_source_tie', 'C08_auto_keys_cover_src',
                  'C08_path_roundtrip', 'C08_path_int_component', 'C08_path_tables', 'C08_path_source_tie', 'C08_path_roundtrip_src', 'C08_alias_spliced_literally'],
-    'tables': ['LetterCase', 'ObjPath', 'ObjPathAlg'],
+    'tables': ['LetterCase', 'ObjPath', 'ObjPathAlg', 'AutoKeysAlg'],
     'level_text': ('Theorems proved in Coq for ALL canonical snake_case names (any number of words, any length) and all six '
                    'documented casings, about an executable model of utils/string_conv.py and the default-engine key '
                    'resolution; the model is re-validated against the implementation on every run (exhaustive small-alphabet '
